@@ -521,6 +521,17 @@ func twinUnionHistories(out *caseOut, cfg string, h tree.HashFn, salt int64, n i
 		default:
 			u = &Ty{Kind: "union", Fields: []*Ty{other, e, e, e}}
 		}
+		if k%6 == 5 {
+			// a union with 130..200 options (selectors above 127)
+			u = &Ty{Kind: "union", None: k%12 == 5}
+			for i, n := 0, 130+g.r.Intn(71); i < n; i++ {
+				if i%2 == 0 {
+					u.Fields = append(u.Fields, e)
+				} else {
+					u.Fields = append(u.Fields, other)
+				}
+			}
+		}
 		ty := u
 		switch g.r.Intn(3) {
 		case 0:
